@@ -153,13 +153,12 @@ def run_chain(item):
             if label in reported:
                 continue
             reported.add(label)
-            res["viol"].append(
-                {
-                    "sig": {"part": part, "ancestor": label, "shape": item["shape"], "type": item["type"], "consts": item.get("consts", "none")},
-                    "input": {"kind": "chain", "item": item, "assign": assign, "seed": e.n.seed},
-                    "what": what,
-                }
-            )
+            sig = {"part": part, "ancestor": label, "shape": item["shape"]}
+            if assign.get(e.n.f, 0) is None:
+                sig["input"] = "explicit-None"  # one class whatever the field type
+            else:
+                sig.update(type=item["type"], consts=item.get("consts", "none"))
+            res["viol"].append({"sig": sig, "input": {"kind": "chain", "item": item, "assign": assign, "seed": e.n.seed}, "what": what})
     return res
 
 
@@ -311,7 +310,8 @@ def run_pair(item):
             cause, text = what
             res["viol"].append(
                 {
-                    "sig": dict({"part": "override-soundness", "tp": item["tp"], "tc": item["tc"]}, **cause, **sig_extra),
+                    # a parent validator that crashes is one class per exception kind; a plain rejection is one per pair
+                    "sig": dict({"part": "override-soundness"}, **({} if cause["cause"] == "parent-crash" else {"tp": item["tp"], "tc": item["tc"]}), **cause, **sig_extra),
                     "input": {"kind": "pair", "item": item, "assign": assign, "seed": e.n.seed},
                     "what": f"check accepts f: {item['tc']} overriding f: {item['tp']} without @override, but " + text,
                 }
